@@ -1,4 +1,5 @@
 import LivesimVerif.Lemmas.Receiver
+import LivesimVerif.Lemmas.RecvInv
 /-!
 # C17 — Ingest receiver: stored media and timeline MPD agree for any arrival order
 
@@ -105,6 +106,107 @@ theorem c17_mpd_written (g g' : Gen) (newSeqNr first last : Nat) (ass : List Str
             intro k hk
             have := sp.2 k (by rw [← sp.1]; exact hk) hk
             simpa [List.getElem_range'] using this
+
+/-! ## The counters never count more than the buffers hold: invariant over every arrival order
+
+`GInv` (Lemmas/RecvInv.lean): window and array sizes agree, track names are distinct, every buffer is strictly
+increasing, and **a live counter inside the current window counts at most as many tracks as there are buffers holding
+that number**.  It holds initially, every `addSegmentData` preserves it — any track, any number below 2³², any order,
+duplicates, gaps — and under it no add can index out of range. -/
+
+theorem c17_inv_init (w : Nat) (h0 : 0 < w) (hw : w < U32) : GInv (Gen.new w) := by
+  refine ⟨h0, hw, ⟨rfl, by simp [Gen.new, Ctrs.new], by simp [Gen.new, Ctrs.new]⟩, by simp [Gen.new], by simp [Gen.new], ?_, by simp [Gen.new]⟩
+  intro c hc; simp [Gen.new, Ctrs.new, Ctrs.live] at hc
+
+/-- **No arrival order stops the receiver, and the invariant survives every upload.** -/
+theorem c17_add_preserves (g : Gen) (name : String) (it : Item) (hg : GInv g) (hn : it.seqNr < U32) :
+    match g.add name it with
+    | .panic => False
+    | .err g' => GInv g'
+    | .ok g' _ => GInv g' :=
+  gen_add_inv g name it hg hn
+
+/-- the state a `Gen.add` leaves behind, whatever the outcome (`none` = panic) -/
+def Gen.addState (g : Gen) (name : String) (it : Item) : Option Gen :=
+  match g.add name it with
+  | .panic => none
+  | .err g' => some g'
+  | .ok g' _ => some g'
+
+/-- … hence for **every finite sequence of uploads**: no panic, and the invariant at the end. -/
+theorem c17_adds_preserve (evs : List (String × Item)) (g : Gen) (hg : GInv g) (hn : ∀ e ∈ evs, e.2.seqNr < U32) :
+    ∃ g', evs.foldlM (fun g e => g.addState e.1 e.2) g = some g' ∧ GInv g' := by
+  induction evs generalizing g with
+  | nil => exact ⟨g, rfl, hg⟩
+  | cons e t ih =>
+    have h1 := gen_add_inv g e.1 e.2 hg (hn e (by simp))
+    simp only [List.foldlM_cons]
+    unfold Gen.addState
+    cases ha : g.add e.1 e.2 with
+    | panic => rw [ha] at h1; exact h1.elim
+    | err g1 => rw [ha] at h1; exact ih g1 h1 (fun e' he' => hn e' (by simp [he']))
+    | ok g1 n => rw [ha] at h1; exact ih g1 h1 (fun e' he' => hn e' (by simp [he']))
+
+/-- MPD generation changes nothing but `latest`, never panics, and keeps the invariant. -/
+theorem c17_mpd_preserves (g : Gen) (newSeqNr : Nat) (ass : List String) (hg : GInv g) :
+    match g.mpd newSeqNr ass with
+    | .panic => False
+    | .err _ => True
+    | .ok g' _ _ _ => GInv g' := by
+  unfold Gen.mpd
+  have hfr : g.ctrs.fullRange g.tracks ≠ none := by
+    unfold Ctrs.fullRange
+    rw [if_neg (by have := hg.cw; rw [this.len]; have := this.nr; omega)]
+    simp
+  cases hr : g.ctrs.fullRange g.tracks with
+  | none => exact hfr hr
+  | some fl =>
+    obtain ⟨f, l⟩ := fl
+    simp only []
+    by_cases h1 : newSeqNr ≤ g.latest
+    · rw [if_pos h1]; trivial
+    · rw [if_neg h1]
+      by_cases h2 : newSeqNr > l
+      · rw [if_pos h2]; trivial
+      · rw [if_neg h2]
+        cases ass.mapM (fun rep => (lookupBuf g.bufs rep).bind (fun b => timelineFor b f l)) with
+        | none => trivial
+        | some tls => exact ⟨hg.wpos, hg.wlt, hg.cw, hg.nodup, hg.bw, hg.win, hg.tr⟩
+
+/-- **Every listed number is held by every track.**  When an MPD is written with range `[first,last]` in a started
+generator satisfying the invariant, every track buffer — not only the first representation of each AdaptationSet that
+`c17_mpd_written` speaks of — holds a segment for every listed number inside the current window
+(`newest counted number < k + windowSize`). -/
+theorem c17_listed_every_track (g g' : Gen) (newSeqNr first last : Nat) (ass : List String) (tls : List (List Item))
+    (hg : GInv g) (hst : g.started = true) (h : g.mpd newSeqNr ass = .ok g' first last tls) :
+    ∀ k, first ≤ k → k ≤ last → mxOf g.ctrs < k + g.w → ∀ p ∈ g.bufs, (p.2.getItem k).isSome = true := by
+  intro k hk1 hk2 hwin
+  have hw := c17_mpd_written g g' newSeqNr first last ass tls h
+  unfold Gen.mpd at h
+  cases hr : g.ctrs.fullRange g.tracks with
+  | none => simp [hr] at h
+  | some fl =>
+    obtain ⟨f, l⟩ := fl
+    simp only [hr] at h
+    by_cases h1 : newSeqNr ≤ g.latest
+    · simp [h1] at h
+    · simp only [h1, ↓reduceIte] at h
+      by_cases h2 : newSeqNr > l
+      · simp [h2] at h
+      · simp only [h2, ↓reduceIte] at h
+        cases hm : ass.mapM (fun rep => (lookupBuf g.bufs rep).bind (fun b => timelineFor b f l)) with
+        | none => simp [hm] at h
+        | some tls' =>
+          simp only [hm] at h
+          injection h with _ hf hl _
+          subst hf hl
+          obtain ⟨x, hx, hxk, hxc⟩ := fullRange_spec g.ctrs g.tracks f l hr (by omega) k hk1 hk2
+          have hcnt := hg.win x hx (by rw [hxk]; exact hwin)
+          rw [hxk] at hcnt
+          have hall := filter_length_all g.bufs (fun p => holdsB p.2 k) (by
+            have := hg.tr hst; unfold holders at hcnt; omega)
+          intro p hp
+          rw [getItem_isSome]; exact hall p hp
 
 /-- non-vacuity: two tracks, three rounds, started after the second master segment; the third round
 produces an MPD listing 1..3 -/
